@@ -50,6 +50,7 @@ type File struct {
 
 	readOpReader *ioext.CounterReadCloser
 	readOpWriter io.WriteCloser
+	readPos      int64 // Cursor while reading from the tape; can be behind the end of the content
 
 	writeBuf      cache.WriteCache
 	cleanWriteBuf func() error
@@ -332,18 +333,24 @@ func (f *File) seekWithoutLocking(offset int64, whence int) (int64, error) {
 	case io.SeekStart:
 		dst = offset
 	case io.SeekCurrent:
-		curr := 0
-		if f.readOpReader != nil {
-			curr = f.readOpReader.BytesRead
-		}
-		dst = int64(curr) + offset
+		dst = f.readPos + offset
 	case io.SeekEnd:
-		dst = f.info.Size() - offset
+		dst = f.info.Size() + offset
 	default:
 		return -1, config.ErrNotImplemented
 	}
 
-	if f.readOpReader == nil || f.readOpWriter == nil || dst < int64(f.readOpReader.BytesRead) { // We have to re-open as we can't seek backwards
+	if dst < 0 {
+		return -1, os.ErrInvalid
+	}
+
+	// The stream can't be positioned behind the end of the content; reads from there just return EOF
+	target := dst
+	if target > f.info.Size() {
+		target = f.info.Size()
+	}
+
+	if f.readOpReader == nil || f.readOpWriter == nil || target < int64(f.readOpReader.BytesRead) { // We have to re-open as we can't seek backwards
 		_ = f.closeWithoutLocking() // Ignore errors here as it might not be opened
 
 		r, writer := io.Pipe()
@@ -384,26 +391,13 @@ func (f *File) seekWithoutLocking(offset int64, whence int) (int64, error) {
 		f.readOpWriter = writer
 	}
 
-	written, err := io.CopyN(io.Discard, f.readOpReader, dst-int64(f.readOpReader.BytesRead))
-	if err == io.EOF {
-		// Noop
-		switch whence {
-		case io.SeekStart:
-			return offset, nil
-		case io.SeekCurrent:
-			return int64(f.readOpReader.BytesRead) + offset, nil
-		case io.SeekEnd:
-			return int64(f.info.Size()) - offset, nil
-		default:
-			return -1, config.ErrNotImplemented
-		}
-	}
-
-	if err != nil {
+	if _, err := io.CopyN(io.Discard, f.readOpReader, target-int64(f.readOpReader.BytesRead)); err != nil && err != io.EOF {
 		return -1, err
 	}
 
-	return written, nil
+	f.readPos = dst
+
+	return dst, nil
 }
 
 // Inventory
@@ -580,6 +574,9 @@ func (f *File) Read(p []byte) (n int, err error) {
 
 	w := &bytes.Buffer{}
 	_, err = io.CopyN(w, f.readOpReader, int64(len(p)))
+	if read := int64(f.readOpReader.BytesRead); read > f.readPos {
+		f.readPos = read
+	}
 	if err == io.EOF {
 		return copy(p, w.Bytes()), io.EOF
 	}
